@@ -40,7 +40,7 @@ RULE = (
 ASSUMPTIONS = [
     "compiled vs interpreted values agree to 1e-12 relative (NaN = NaN); vector results must have the same Python class and coordinate classes",
     "operands are float64 object vectors from the well-conditioned alphabet; integer-typed coordinates are not enumerated",
-    "transform2D/3D/4D (need a mapping argument) are not driven; programs with operands of different dimension are not enumerated (the interpreter raises there)",
+    "transform2D/3D/4D are driven with a numba typed dict as the mapping argument; programs with operands of different dimension are not enumerated (the interpreter raises there)",
 ]
 CAP_S = {"quick": 3000, "thorough": 14000}
 
@@ -150,6 +150,13 @@ def num_close(p, q):
     if math.isinf(p) or math.isinf(q):
         return p == q
     return abs(p - q) <= 1e-12 * max(1.0, abs(p), abs(q))
+
+
+def _typed(matrix):
+    d = numba.typed.Dict()
+    for k_, v_ in matrix.items():
+        d[k_] = float(v_)
+    return d
 
 
 def vectors_for(dim, system, flavor, tier, n=3):
@@ -267,6 +274,10 @@ def run_shard(shard, tier):
             members = [m for m in members if m != "v.to_Vector4D()"] + ["v.to_Vector4D()"]
         args = [(v, SCAL["a"], SCAL["b"], SCAL["c"], SCAL["k"], SCAL["g"]) for v in vectors_for(dim, system, flavor, tier)]
         run_batch(res, fam, members, ["v", "a", "b", "c", "k", "g"], args, sigstr(dim, system, flavor), case)
+        # general linear transforms: the mapping argument is a numba typed dict (non-symmetric matrices)
+        tmembers = ["v.transform2D(m2)"] + (["v.transform3D(m3)"] if dim >= 3 else []) + (["v.transform4D(m4)"] if dim == 4 else [])
+        targs = [(v, _typed(A.MATRIX2), _typed(A.MATRIX3), _typed(A.MATRIX4)) for v in vectors_for(dim, system, flavor, tier, n=2)]
+        run_batch(res, fam, tmembers, ["v", "m2", "m3", "m4"], targs, sigstr(dim, system, flavor) + "|transforms", dict(case, transforms=True))
     elif fam == "P3":
         dimB, sysB, flavorB = shard["dimB"], tuple(shard["sysB"]), shard["flavorB"]
         if dim == dimB:
